@@ -1,10 +1,980 @@
-//! C15 — not implemented yet.
+//! C15 — runtime reconfiguration is atomic; the file reloader keeps the last good config.
+//!
+//! Real code driven here: `log4rs::Logger::new`, `Log::log`, `Handle::set_config` (through the
+//! `verif_handle` hook, on a logger that is *not* installed globally) and the private
+//! `ConfigReloader::run_once` (through `verif_hooks::VerifReloader`).
+//!
+//! Case kinds (first field), see `lean/Driver/C15.lean` for the encodings:
+//!   swap    <cfgs> <scripts> <ops>
+//!   stress  <cfgs> <nLog> <nReconf> <iters> <probes>
+//!   reload  <docs> <init d:m:forget> <steps>
+use crate::proto::*;
 use crate::rng::Rng;
+use log::Log;
+use std::cell::RefCell;
+use std::collections::BTreeSet;
+use std::path::{Path, PathBuf};
+use std::sync::atomic::{AtomicBool, AtomicUsize, Ordering};
+use std::sync::{Arc, Mutex};
+use std::time::{Duration, Instant, SystemTime};
 
-pub fn gen(_rng: &mut Rng, _n: usize, _thorough: bool, _emit: &mut dyn FnMut(String)) {}
+// ---------------------------------------------------------------------------------------------
+// configurations of the swap scenarios
+// ---------------------------------------------------------------------------------------------
+#[derive(Clone, Debug)]
+struct MiniCfg {
+    table: Vec<u64>,
+    root_level: u64,
+    root_apps: Vec<u64>,
+    loggers: Vec<(u64, u64, Vec<u64>)>,
+}
 
-pub fn exec(_fields: &[&str]) -> String {
-    "unimplemented".to_owned()
+#[derive(Clone, Debug, PartialEq)]
+enum Act {
+    Log(u64, u64),
+    Swap(usize),
+}
+
+fn dec_nats(sep: char, s: &str) -> Option<Vec<u64>> {
+    dec_list(sep, s).iter().map(|x| x.parse().ok()).collect()
+}
+
+fn dec_cfg(s: &str) -> Option<MiniCfg> {
+    let parts: Vec<&str> = s.split(';').collect();
+    if parts.len() < 3 {
+        return None;
+    }
+    let mut loggers = vec![];
+    for l in &parts[3..] {
+        let f: Vec<&str> = l.split(':').collect();
+        if f.len() != 3 {
+            return None;
+        }
+        loggers.push((f[0].parse().ok()?, f[1].parse().ok()?, dec_nats('+', f[2])?));
+    }
+    Some(MiniCfg {
+        table: dec_nats(',', parts[0])?,
+        root_level: parts[1].parse().ok()?,
+        root_apps: dec_nats(',', parts[2])?,
+        loggers,
+    })
+}
+
+fn dec_cfgs(s: &str) -> Option<Vec<MiniCfg>> {
+    s.split('|').map(dec_cfg).collect()
+}
+
+fn dec_act(s: &str) -> Option<Act> {
+    if let Some(r) = s.strip_prefix('s') {
+        return r.parse().ok().map(Act::Swap);
+    }
+    if let Some(r) = s.strip_prefix('l') {
+        let f: Vec<&str> = r.split('.').collect();
+        if f.len() == 2 {
+            return Some(Act::Log(f[0].parse().ok()?, f[1].parse().ok()?));
+        }
+    }
+    None
+}
+
+fn level_filter(n: u64) -> log::LevelFilter {
+    match n {
+        0 => log::LevelFilter::Off,
+        1 => log::LevelFilter::Error,
+        2 => log::LevelFilter::Warn,
+        3 => log::LevelFilter::Info,
+        4 => log::LevelFilter::Debug,
+        _ => log::LevelFilter::Trace,
+    }
+}
+
+fn level(n: u64) -> log::Level {
+    match n {
+        1 => log::Level::Error,
+        2 => log::Level::Warn,
+        3 => log::Level::Info,
+        4 => log::Level::Debug,
+        _ => log::Level::Trace,
+    }
+}
+
+// ---------------------------------------------------------------------------------------------
+// the observing side: everything is thread-local, so concurrent records never mix their captures
+// ---------------------------------------------------------------------------------------------
+thread_local! {
+    static TRACE: RefCell<Vec<String>> = RefCell::new(Vec::new());
+    static STACK: RefCell<Vec<usize>> = RefCell::new(Vec::new());   // record ids being processed
+    static NEXT_TID: RefCell<usize> = RefCell::new(0);
+    static RTAGS: RefCell<Vec<(u64, usize)>> = RefCell::new(Vec::new());
+}
+
+fn trace_push(s: String) {
+    TRACE.with(|t| t.borrow_mut().push(s));
+}
+
+struct Ctx {
+    cfgs: Vec<MiniCfg>,
+    scripts: Vec<(usize, u64, Vec<Act>)>,
+    logger: Mutex<Option<Arc<log4rs::Logger>>>,
+    handle: Mutex<Option<log4rs::Handle>>,
+}
+
+impl Ctx {
+    fn logger(&self) -> Arc<log4rs::Logger> {
+        self.logger.lock().unwrap().as_ref().unwrap().clone()
+    }
+    fn handle(&self) -> log4rs::Handle {
+        self.handle.lock().unwrap().as_ref().unwrap().clone()
+    }
+}
+
+/// a capturing appender that knows which configuration it was built for
+struct Tagged {
+    tag: usize,
+    name: u64,
+    ctx: Arc<Ctx>,
+}
+
+impl std::fmt::Debug for Tagged {
+    fn fmt(&self, f: &mut std::fmt::Formatter<'_>) -> std::fmt::Result {
+        write!(f, "Tagged({}:{})", self.tag, self.name)
+    }
+}
+
+impl log4rs::append::Append for Tagged {
+    fn append(&self, _record: &log::Record) -> anyhow::Result<()> {
+        let (tid, depth) = STACK.with(|s| {
+            let s = s.borrow();
+            (s.last().copied().unwrap_or(0), s.len())
+        });
+        trace_push(format!("D:{}:{}:{}", tid, self.tag, self.name));
+        if depth == 1 {
+            // scripts fire for top-level records only
+            let acts: Vec<Act> = self
+                .ctx
+                .scripts
+                .iter()
+                .find(|(c, a, _)| *c == self.tag && *a == self.name)
+                .map(|e| e.2.clone())
+                .unwrap_or_default();
+            for a in acts {
+                perform(&self.ctx, &a);
+            }
+        }
+        Ok(())
+    }
+    fn flush(&self) {}
+}
+
+fn build_config(ctx: &Arc<Ctx>, k: usize) -> log4rs::Config {
+    let c = &ctx.cfgs[k];
+    let mut b = log4rs::Config::builder();
+    for name in &c.table {
+        b = b.appender(log4rs::config::Appender::builder().build(
+            format!("a{}", name),
+            Box::new(Tagged { tag: k, name: *name, ctx: ctx.clone() }),
+        ));
+    }
+    for (t, lv, apps) in &c.loggers {
+        b = b.logger(
+            log4rs::config::Logger::builder()
+                .appenders(apps.iter().map(|a| format!("a{}", a)))
+                .additive(false)
+                .build(format!("t{}", t), level_filter(*lv)),
+        );
+    }
+    b.build(
+        log4rs::config::Root::builder()
+            .appenders(c.root_apps.iter().map(|a| format!("a{}", a)))
+            .build(level_filter(c.root_level)),
+    )
+    .expect("generated configurations are valid")
+}
+
+fn do_log(logger: &log4rs::Logger, t: u64, l: u64) {
+    let tid = NEXT_TID.with(|n| {
+        let mut n = n.borrow_mut();
+        let v = *n;
+        *n += 1;
+        v
+    });
+    trace_push(format!("B:{}:{}:{}", tid, t, l));
+    STACK.with(|s| s.borrow_mut().push(tid));
+    let target = format!("t{}", t);
+    logger.log(&log::Record::builder().target(&target).level(level(l)).args(format_args!("probe")).build());
+    STACK.with(|s| s.borrow_mut().pop());
+    trace_push(format!("E:{}", tid));
+}
+
+fn perform(ctx: &Arc<Ctx>, a: &Act) {
+    match a {
+        Act::Log(t, l) => {
+            let logger = ctx.logger();
+            do_log(&logger, *t, *l);
+        }
+        Act::Swap(k) => {
+            let cfg = build_config(ctx, *k);
+            ctx.handle().set_config(cfg);
+            // set_config has returned
+            trace_push(format!("S:{}", k));
+        }
+    }
+}
+
+fn reset_thread_state() {
+    TRACE.with(|t| t.borrow_mut().clear());
+    STACK.with(|s| s.borrow_mut().clear());
+    NEXT_TID.with(|n| *n.borrow_mut() = 0);
+}
+
+fn new_ctx(cfgs: Vec<MiniCfg>, scripts: Vec<(usize, u64, Vec<Act>)>) -> Arc<Ctx> {
+    let ctx = Arc::new(Ctx { cfgs, scripts, logger: Mutex::new(None), handle: Mutex::new(None) });
+    let logger = Arc::new(log4rs::Logger::new(build_config(&ctx, 0)));
+    *ctx.handle.lock().unwrap() = Some(logger.verif_handle());
+    *ctx.logger.lock().unwrap() = Some(logger);
+    ctx
+}
+
+fn drop_ctx(ctx: &Arc<Ctx>) {
+    // break the Logger -> appender -> Ctx -> Logger cycle
+    *ctx.handle.lock().unwrap() = None;
+    *ctx.logger.lock().unwrap() = None;
+}
+
+fn exec_swap(cfgs: &str, scripts: &str, ops: &str) -> String {
+    let cfgs = match dec_cfgs(cfgs) {
+        Some(c) if !c.is_empty() => c,
+        _ => return "bad-case".to_owned(),
+    };
+    let mut sc = vec![];
+    for e in dec_list(';', scripts) {
+        let f: Vec<&str> = e.split(':').collect();
+        if f.len() != 3 {
+            return "bad-case".to_owned();
+        }
+        let acts: Option<Vec<Act>> = dec_list(',', f[2]).iter().map(|a| dec_act(a)).collect();
+        match (f[0].parse::<usize>(), f[1].parse::<u64>(), acts) {
+            (Ok(c), Ok(a), Some(acts)) => sc.push((c, a, acts)),
+            _ => return "bad-case".to_owned(),
+        }
+    }
+    let ops: Vec<Act> = match dec_list(',', ops).iter().map(|a| dec_act(a)).collect() {
+        Some(o) => o,
+        None => return "bad-case".to_owned(),
+    };
+    reset_thread_state();
+    let r = guarded(move || {
+        let ctx = new_ctx(cfgs, sc);
+        let res = std::panic::catch_unwind(std::panic::AssertUnwindSafe(|| {
+            for op in &ops {
+                perform(&ctx, op);
+            }
+        }));
+        drop_ctx(&ctx);
+        res.is_ok()
+    });
+    match r {
+        Ok(true) => {
+            let items = TRACE.with(|t| t.borrow().clone());
+            enc_list(",", &items)
+        }
+        _ => "PANIC".to_owned(),
+    }
+}
+
+// ---------------------------------------------------------------------------------------------
+// multi-thread stress
+// ---------------------------------------------------------------------------------------------
+fn render_deliveries(items: &[String]) -> String {
+    // items are "D:tid:tag:name"
+    let ds: Vec<String> = items
+        .iter()
+        .filter(|s| s.starts_with("D:"))
+        .map(|s| {
+            let f: Vec<&str> = s.split(':').collect();
+            format!("{}:{}", f[2], f[3])
+        })
+        .collect();
+    if ds.is_empty() {
+        "_".to_owned()
+    } else {
+        ds.join("+")
+    }
+}
+
+/// log one probe on this thread and return the deliveries it produced
+fn probe(logger: &log4rs::Logger, t: u64, l: u64) -> String {
+    reset_thread_state();
+    do_log(logger, t, l);
+    let items = TRACE.with(|t| t.borrow().clone());
+    render_deliveries(&items)
+}
+
+fn exec_stress(cfgs: &str, n_log: &str, n_rec: &str, iters: &str, probes: &str) -> String {
+    let cfgs = match dec_cfgs(cfgs) {
+        Some(c) if !c.is_empty() => c,
+        _ => return "bad-case".to_owned(),
+    };
+    let (n_log, n_rec, iters) = match (n_log.parse::<usize>(), n_rec.parse::<usize>(), iters.parse::<usize>()) {
+        (Ok(a), Ok(b), Ok(c)) if a > 0 && b > 0 => (a, b, c),
+        _ => return "bad-case".to_owned(),
+    };
+    let probes: Vec<(u64, u64)> = match dec_list(',', probes)
+        .iter()
+        .map(|p| {
+            let f: Vec<&str> = p.split('.').collect();
+            if f.len() == 2 {
+                Some((f[0].parse().ok()?, f[1].parse().ok()?))
+            } else {
+                None
+            }
+        })
+        .collect()
+    {
+        Some(p) => p,
+        None => return "bad-case".to_owned(),
+    };
+    let ncfg = cfgs.len();
+    let r = guarded(move || {
+        // sequential reference runs, one fresh logger per configuration: used only as the loggers'
+        // stop criterion ("every configuration has been witnessed for every probe")
+        let mut need: Vec<BTreeSet<String>> = vec![BTreeSet::new(); probes.len()];
+        for k in 0..ncfg {
+            let ctx = new_ctx(cfgs.clone(), vec![]);
+            ctx.handle().set_config(build_config(&ctx, k));
+            let logger = ctx.logger();
+            for (i, (t, l)) in probes.iter().enumerate() {
+                need[i].insert(probe(&logger, *t, *l));
+            }
+            drop_ctx(&ctx);
+        }
+        let ctx = new_ctx(cfgs.clone(), vec![]);
+        let logger = ctx.logger();
+        let stop = Arc::new(AtomicBool::new(false));
+        let satisfied = Arc::new(AtomicUsize::new(0));
+        let panics = Arc::new(AtomicUsize::new(0));
+        let deadline = Instant::now() + Duration::from_secs(20);
+        let mut log_threads = vec![];
+        for li in 0..n_log {
+            let (logger, stop, satisfied, panics) = (logger.clone(), stop.clone(), satisfied.clone(), panics.clone());
+            let (probes, need) = (probes.clone(), need.clone());
+            log_threads.push(std::thread::spawn(move || {
+                let mut seen: Vec<BTreeSet<String>> = vec![BTreeSet::new(); probes.len()];
+                let mut told = false;
+                let mut i = li;
+                while !stop.load(Ordering::Relaxed) {
+                    let pi = i % probes.len();
+                    i += 1;
+                    let (t, l) = probes[pi];
+                    match std::panic::catch_unwind(std::panic::AssertUnwindSafe(|| probe(&logger, t, l))) {
+                        Ok(d) => {
+                            seen[pi].insert(d);
+                        }
+                        Err(_) => {
+                            panics.fetch_add(1, Ordering::Relaxed);
+                        }
+                    }
+                    if !told && i % 64 == 0 && (0..probes.len()).all(|p| need[p].is_subset(&seen[p])) {
+                        told = true;
+                        satisfied.fetch_add(1, Ordering::Relaxed);
+                    }
+                }
+                seen
+            }));
+        }
+        let mut rec_threads = vec![];
+        for ri in 0..n_rec {
+            let (ctx, logger, satisfied, panics) = (ctx.clone(), logger.clone(), satisfied.clone(), panics.clone());
+            let probes = probes.clone();
+            rec_threads.push(std::thread::spawn(move || {
+                let mut after: BTreeSet<String> = BTreeSet::new();
+                let mut k = ri % ncfg;
+                let mut done = 0usize;
+                loop {
+                    k = (k + 1) % ncfg;
+                    let r = std::panic::catch_unwind(std::panic::AssertUnwindSafe(|| {
+                        ctx.handle().set_config(build_config(&ctx, k));
+                    }));
+                    if r.is_err() {
+                        panics.fetch_add(1, Ordering::Relaxed);
+                    }
+                    if n_rec == 1 {
+                        // the only reconfigurer: what it logs now must be routed under `k`
+                        for (t, l) in probes.iter() {
+                            after.insert(format!("{}>{}.{}>{}", k, t, l, probe(&logger, *t, *l)));
+                        }
+                    } else if done % 7 == 0 {
+                        std::thread::yield_now();
+                    }
+                    done += 1;
+                    if done >= iters.max(ncfg) && (satisfied.load(Ordering::Relaxed) >= n_log || Instant::now() > deadline) {
+                        break;
+                    }
+                }
+                after
+            }));
+        }
+        let mut after_all: BTreeSet<String> = BTreeSet::new();
+        for t in rec_threads {
+            match t.join() {
+                Ok(a) => after_all.extend(a),
+                Err(_) => {
+                    panics.fetch_add(1, Ordering::Relaxed);
+                }
+            }
+        }
+        stop.store(true, Ordering::Relaxed);
+        let mut seen_all: Vec<BTreeSet<String>> = vec![BTreeSet::new(); probes.len()];
+        for t in log_threads {
+            match t.join() {
+                Ok(seen) => {
+                    for (i, s) in seen.into_iter().enumerate() {
+                        seen_all[i].extend(s);
+                    }
+                }
+                Err(_) => {
+                    panics.fetch_add(1, Ordering::Relaxed);
+                }
+            }
+        }
+        drop_ctx(&ctx);
+        let mut parts = vec![];
+        for (i, (t, l)) in probes.iter().enumerate() {
+            parts.push(format!("{}.{}={}", t, l, seen_all[i].iter().cloned().collect::<Vec<_>>().join("/")));
+        }
+        if n_rec == 1 {
+            parts.push(format!("after={}", after_all.iter().cloned().collect::<Vec<_>>().join("/")));
+        } else {
+            parts.push("after=-".to_owned());
+        }
+        parts.push(format!("panics={}", panics.load(Ordering::Relaxed)));
+        parts.join(";")
+    });
+    r.unwrap_or_else(|_| "PANIC".to_owned())
+}
+
+// ---------------------------------------------------------------------------------------------
+// the file reloader
+// ---------------------------------------------------------------------------------------------
+#[derive(Clone, Debug)]
+struct Doc {
+    kind: char,
+    tag: u64,
+    rate: Option<u64>,
+    nonce: u64,
+}
+
+fn dec_doc(s: &str) -> Option<Doc> {
+    let f: Vec<&str> = s.split(':').collect();
+    if f.len() != 4 || f[0].len() != 1 || !"glycr".contains(f[0]) {
+        return None;
+    }
+    Some(Doc {
+        kind: f[0].chars().next()?,
+        tag: f[1].parse().ok()?,
+        rate: if f[2] == "-" { None } else { Some(f[2].parse().ok()?) },
+        nonce: f[3].parse().ok()?,
+    })
+}
+
+/// injective in (kind, tag, rate, nonce): the first line spells all four out
+fn render_doc(d: &Doc) -> String {
+    let mut s = format!("# kind={} tag={} rate={:?} nonce={}\n", d.kind, d.tag, d.rate, d.nonce);
+    if d.kind == 'y' {
+        s.push_str("appenders: [unclosed\n  {{{ : : not yaml\n");
+        return s;
+    }
+    if d.kind == 'r' {
+        s.push_str("refresh_rate: banana\n");
+    } else if let Some(r) = d.rate {
+        s.push_str(&format!("refresh_rate: {} seconds\n", r));
+    }
+    if d.kind == 'c' {
+        s.push_str("bogus_top_level_key: 1\n");
+    }
+    s.push_str(&format!("appenders:\n  t:\n    kind: tagged\n    tag: {}\n", d.tag));
+    if d.kind == 'l' {
+        s.push_str("  broken:\n    kind: no_such_kind\n");
+        s.push_str("root:\n  level: info\n  appenders:\n    - t\n    - broken\n");
+    } else {
+        s.push_str("root:\n  level: info\n  appenders:\n    - t\n");
+    }
+    s
+}
+
+/// (tag from the file, serial number of this appender object: a new serial = a new configuration
+/// object is active, i.e. `set_config` has been called)
+#[derive(Debug)]
+struct RTagged(u64, usize);
+
+impl log4rs::append::Append for RTagged {
+    fn append(&self, _record: &log::Record) -> anyhow::Result<()> {
+        RTAGS.with(|t| t.borrow_mut().push((self.0, self.1)));
+        Ok(())
+    }
+    fn flush(&self) {}
+}
+
+#[derive(serde::Deserialize)]
+struct RTaggedConfig {
+    tag: u64,
+}
+
+struct RTaggedDeserializer(Arc<AtomicUsize>);
+
+impl log4rs::config::Deserialize for RTaggedDeserializer {
+    type Trait = dyn log4rs::append::Append;
+    type Config = RTaggedConfig;
+    fn deserialize(
+        &self,
+        config: RTaggedConfig,
+        _: &log4rs::config::Deserializers,
+    ) -> anyhow::Result<Box<dyn log4rs::append::Append>> {
+        Ok(Box::new(RTagged(config.tag, self.0.fetch_add(1, Ordering::Relaxed))))
+    }
+}
+
+static SCRATCH_COUNTER: AtomicUsize = AtomicUsize::new(0);
+
+fn scratch_dir() -> PathBuf {
+    let base = std::env::var("VERIF_SCRATCH").unwrap_or_else(|_| "/tmp/verif_scratch".to_owned());
+    let d = Path::new(&base).join(format!("c15_{}_{}", std::process::id(), SCRATCH_COUNTER.fetch_add(1, Ordering::Relaxed)));
+    std::fs::create_dir_all(&d).unwrap();
+    d
+}
+
+fn mtime_of(m: u64) -> SystemTime {
+    SystemTime::UNIX_EPOCH + Duration::from_secs(1_600_000_000 + m)
+}
+
+fn clear_path(p: &Path) {
+    if let Ok(md) = std::fs::symlink_metadata(p) {
+        if md.is_dir() {
+            let _ = std::fs::remove_dir_all(p);
+        } else {
+            let _ = std::fs::remove_file(p);
+        }
+    }
+}
+
+fn put_file(p: &Path, bytes: &[u8], m: u64) {
+    clear_path(p);
+    std::fs::write(p, bytes).unwrap();
+    let f = std::fs::OpenOptions::new().write(true).open(p).unwrap();
+    f.set_modified(mtime_of(m)).unwrap();
+}
+
+fn put_dir(p: &Path, m: u64) {
+    clear_path(p);
+    std::fs::create_dir(p).unwrap();
+    let f = std::fs::File::open(p).unwrap();
+    f.set_modified(mtime_of(m)).unwrap();
+}
+
+/// (rendered tags of the active configuration, serials of its appender objects)
+fn active_tag(logger: &log4rs::Logger) -> (String, Vec<usize>) {
+    RTAGS.with(|t| t.borrow_mut().clear());
+    logger.log(&log::Record::builder().target("probe").level(log::Level::Error).args(format_args!("p")).build());
+    let mut tags = RTAGS.with(|t| t.borrow().clone());
+    tags.sort();
+    let serials = tags.iter().map(|t| t.1).collect();
+    if tags.is_empty() {
+        ("none".to_owned(), serials)
+    } else {
+        (tags.iter().map(|t| t.0.to_string()).collect::<Vec<_>>().join("+"), serials)
+    }
+}
+
+fn exec_reload(docs: &str, init: &str, steps: &str) -> String {
+    let docs: Vec<Doc> = match dec_list(';', docs).iter().map(|d| dec_doc(d)).collect() {
+        Some(d) => d,
+        None => return "bad-case".to_owned(),
+    };
+    let f: Vec<&str> = init.split(':').collect();
+    if f.len() != 3 {
+        return "bad-case".to_owned();
+    }
+    let (d0, m0, forget) = match (f[0].parse::<usize>(), f[1].parse::<u64>(), f[2]) {
+        (Ok(d), Ok(m), "0") if d < docs.len() => (d, m, false),
+        (Ok(d), Ok(m), "1") if d < docs.len() => (d, m, true),
+        _ => return "bad-case".to_owned(),
+    };
+    enum Step {
+        Write(usize, u64),
+        Missing,
+        Dir(u64),
+        NotUtf8(u64),
+    }
+    let mut sts = vec![];
+    for s in dec_list(',', steps) {
+        let f: Vec<&str> = s.split(':').collect();
+        let st = match f.as_slice() {
+            ["w", d, m] => match (d.parse::<usize>(), m.parse::<u64>()) {
+                (Ok(d), Ok(m)) if d < docs.len() => Step::Write(d, m),
+                _ => return "bad-case".to_owned(),
+            },
+            ["x"] => Step::Missing,
+            ["d", m] => match m.parse() {
+                Ok(m) => Step::Dir(m),
+                _ => return "bad-case".to_owned(),
+            },
+            ["u", m] => match m.parse() {
+                Ok(m) => Step::NotUtf8(m),
+                _ => return "bad-case".to_owned(),
+            },
+            _ => return "bad-case".to_owned(),
+        };
+        sts.push(st);
+    }
+    let dir = scratch_dir();
+    let dir2 = dir.clone();
+    let r = guarded(move || {
+        let path = dir2.join("log4rs.yaml");
+        put_file(&path, render_doc(&docs[d0]).as_bytes(), m0);
+        let mut des = log4rs::config::Deserializers::default();
+        des.insert("tagged", RTaggedDeserializer(Arc::new(AtomicUsize::new(0))));
+        // the logger starts with an empty configuration; `init_file` would create it from the
+        // file's configuration, which is what the set_config below does
+        let empty = log4rs::Config::builder()
+            .build(log4rs::config::Root::builder().build(log::LevelFilter::Off))
+            .unwrap();
+        let logger = log4rs::Logger::new(empty);
+        let handle = logger.verif_handle();
+        let (config, rate0, mut rel) = match log4rs::verif_hooks::VerifReloader::new(&path, des, handle.clone()) {
+            Ok(x) => x,
+            Err(_) => return "init-err".to_owned(),
+        };
+        handle.set_config(config);
+        if forget {
+            rel.forget_mtime();
+        }
+        // mirror of `ConfigReloader::run` (without the sleep)
+        let mut alive = rate0.is_some();
+        let mut rate = rate0.unwrap_or(Duration::from_secs(0));
+        let (tag0, mut serials) = active_tag(&logger);
+        let mut out = vec![format!("init:{}:{}:{}", tag0, rate.as_secs(), enc_bool(alive))];
+        for st in &sts {
+            match st {
+                Step::Write(d, m) => put_file(&path, render_doc(&docs[*d]).as_bytes(), *m),
+                Step::Missing => clear_path(&path),
+                Step::Dir(m) => put_dir(&path, *m),
+                Step::NotUtf8(m) => put_file(&path, &[0x61, 0xff, 0xfe, 0x0a], *m),
+            }
+            // `run_once` does not say whether it called set_config; the logger does: a new
+            // configuration has new appender objects (new serial numbers)
+            let res = if !alive {
+                "dead"
+            } else {
+                match rel.step(rate) {
+                    Ok(Some(r)) => {
+                        rate = r;
+                        "ok"
+                    }
+                    Ok(None) => {
+                        alive = false;
+                        "ok"
+                    }
+                    Err(_) => "error",
+                }
+            };
+            let (tag, now) = active_tag(&logger);
+            let touched = now != serials;
+            serials = now;
+            let action = match (res, touched) {
+                ("dead", false) => "dead",
+                ("ok", true) => "applied",
+                ("ok", false) => "unchanged",
+                ("error", false) => "error",
+                ("error", true) => "error-but-touched",
+                _ => "dead-but-touched",
+            };
+            out.push(format!("{}:{}:{}:{}", action, tag, rate.as_secs(), enc_bool(alive)));
+        }
+        out.join(",")
+    });
+    let _ = std::fs::remove_dir_all(&dir);
+    r.unwrap_or_else(|_| "PANIC".to_owned())
+}
+
+pub fn exec(fields: &[&str]) -> String {
+    match fields {
+        ["swap", cfgs, scripts, ops] => exec_swap(cfgs, scripts, ops),
+        ["stress", cfgs, n_log, n_rec, iters, probes] => exec_stress(cfgs, n_log, n_rec, iters, probes),
+        ["reload", docs, init, steps] => exec_reload(docs, init, steps),
+        _ => "bad-case".to_owned(),
+    }
+}
+
+// ---------------------------------------------------------------------------------------------
+// generators
+// ---------------------------------------------------------------------------------------------
+fn enc_nats(sep: &str, xs: &[u64]) -> String {
+    enc_list(sep, &xs.iter().map(|x| x.to_string()).collect::<Vec<_>>())
+}
+
+fn enc_cfg(c: &MiniCfg) -> String {
+    let mut parts = vec![enc_nats(",", &c.table), c.root_level.to_string(), enc_nats(",", &c.root_apps)];
+    for (t, lv, apps) in &c.loggers {
+        parts.push(format!("{}:{}:{}", t, lv, enc_nats("+", apps)));
+    }
+    parts.join(";")
+}
+
+fn enc_act(a: &Act) -> String {
+    match a {
+        Act::Log(t, l) => format!("l{}.{}", t, l),
+        Act::Swap(k) => format!("s{}", k),
+    }
+}
+
+fn enc_acts(a: &[Act]) -> String {
+    enc_list(",", &a.iter().map(enc_act).collect::<Vec<_>>())
+}
+
+fn swap_case(cfgs: &[MiniCfg], scripts: &[(usize, u64, Vec<Act>)], ops: &[Act]) -> String {
+    let sc: Vec<String> = scripts.iter().map(|(c, a, acts)| format!("{}:{}:{}", c, a, enc_acts(acts))).collect();
+    format!(
+        "swap\t{}\t{}\t{}",
+        cfgs.iter().map(enc_cfg).collect::<Vec<_>>().join("|"),
+        enc_list(";", &sc),
+        enc_acts(ops)
+    )
+}
+
+fn family() -> Vec<MiniCfg> {
+    vec![
+        MiniCfg { table: vec![10, 11, 12], root_level: 5, root_apps: vec![10, 11, 12], loggers: vec![(7, 3, vec![12, 10])] },
+        MiniCfg { table: vec![20], root_level: 5, root_apps: vec![20], loggers: vec![] },
+        MiniCfg { table: vec![30, 31, 32, 33, 34], root_level: 4, root_apps: vec![34, 30], loggers: vec![(7, 5, vec![31, 32, 33, 31])] },
+        MiniCfg { table: vec![], root_level: 5, root_apps: vec![], loggers: vec![] },
+    ]
+}
+
+fn random_cfg(rng: &mut Rng, k: usize) -> MiniCfg {
+    let size = rng.below(6) as usize;
+    let mut table: Vec<u64> = (0..size as u64).map(|i| (k as u64 + 1) * 10 + i).collect();
+    rng.shuffle(&mut table);
+    let pick_apps = |rng: &mut Rng| -> Vec<u64> {
+        if table.is_empty() {
+            return vec![];
+        }
+        let n = rng.below(5) as usize;
+        (0..n).map(|_| *rng.pick(&table)).collect()
+    };
+    let root_apps = pick_apps(rng);
+    let root_level = if rng.chance(3, 4) { 5 } else { rng.below(6) };
+    let mut targets = vec![1u64, 2, 7];
+    rng.shuffle(&mut targets);
+    let nl = rng.below(3) as usize;
+    let loggers = targets[..nl]
+        .iter()
+        .map(|t| (*t, if rng.chance(2, 3) { 5 } else { rng.below(6) }, pick_apps(rng)))
+        .collect();
+    MiniCfg { table, root_level, root_apps, loggers }
+}
+
+fn random_act(rng: &mut Rng, ncfg: usize, swap_num: u64, swap_den: u64) -> Act {
+    if rng.chance(swap_num, swap_den) {
+        Act::Swap(rng.below(ncfg as u64) as usize)
+    } else {
+        Act::Log(*rng.pick(&[0u64, 1, 2, 7]), rng.range(1, 5))
+    }
+}
+
+fn gen_swap_deterministic(emit: &mut dyn FnMut(String)) {
+    let fam = family();
+    // every position of the fan-out of (target 0) under cfg 0, every destination configuration
+    for (pos, app) in [10u64, 11, 12].iter().enumerate() {
+        for k in 1..4usize {
+            emit(swap_case(&fam, &[(0, *app, vec![Act::Swap(k)])], &[Act::Log(0, 3), Act::Log(0, 3)]));
+            emit(swap_case(&fam, &[(0, *app, vec![Act::Swap(k), Act::Log(0, 3), Act::Log(7, 2)])], &[Act::Log(0, 3), Act::Log(7, 4)]));
+            // several swaps inside one record: A -> k -> (k+1) at a later position, and back-to-back
+            for (pos2, app2) in [10u64, 11, 12].iter().enumerate() {
+                if pos2 > pos {
+                    let k2 = k % 3 + 1;
+                    emit(swap_case(
+                        &fam,
+                        &[(0, *app, vec![Act::Swap(k)]), (0, *app2, vec![Act::Swap(k2), Act::Log(0, 1)])],
+                        &[Act::Log(0, 3), Act::Log(0, 3)],
+                    ));
+                }
+            }
+            emit(swap_case(&fam, &[(0, *app, vec![Act::Swap(k), Act::Swap(k % 3 + 1), Act::Log(7, 1)])], &[Act::Log(0, 3), Act::Log(7, 1)]));
+            emit(swap_case(&fam, &[(0, *app, vec![Act::Swap(k), Act::Swap(0)])], &[Act::Log(0, 3), Act::Log(0, 3)]));
+        }
+    }
+    // the logger-specific route (t7: [12, 10]) and the level gate
+    for app in [12u64, 10] {
+        emit(swap_case(&fam, &[(0, app, vec![Act::Swap(2), Act::Log(7, 5)])], &[Act::Log(7, 3), Act::Log(7, 5), Act::Log(7, 4)]));
+    }
+    // chains: the new configuration's appender swaps again on the next record
+    emit(swap_case(
+        &fam,
+        &[(0, 11, vec![Act::Swap(1)]), (1, 20, vec![Act::Swap(2)]), (2, 34, vec![Act::Swap(3)])],
+        &[Act::Log(0, 1), Act::Log(0, 1), Act::Log(0, 1), Act::Log(0, 1), Act::Swap(0), Act::Log(0, 1)],
+    ));
+    // swaps between records only
+    emit(swap_case(&fam, &[], &[Act::Log(0, 3), Act::Swap(1), Act::Log(0, 3), Act::Swap(2), Act::Log(7, 2), Act::Swap(3), Act::Log(0, 1), Act::Swap(0), Act::Log(7, 3)]));
+    emit(swap_case(&fam, &[], &[Act::Log(0, 3)]));
+}
+
+fn gen_swap_random(rng: &mut Rng, thorough: bool, emit: &mut dyn FnMut(String)) {
+    let ncfg = rng.range(2, if thorough { 5 } else { 4 }) as usize;
+    let cfgs: Vec<MiniCfg> = (0..ncfg).map(|k| random_cfg(rng, k)).collect();
+    let mut scripts = vec![];
+    for (k, c) in cfgs.iter().enumerate() {
+        for a in &c.table {
+            if rng.chance(1, 2) {
+                let n = rng.range(1, 3);
+                scripts.push((k, *a, (0..n).map(|_| random_act(rng, ncfg, 2, 3)).collect()));
+            }
+        }
+    }
+    let nops = rng.range(1, if thorough { 9 } else { 6 });
+    let ops: Vec<Act> = (0..nops).map(|_| random_act(rng, ncfg, 1, 4)).collect();
+    emit(swap_case(&cfgs, &scripts, &ops));
+}
+
+fn gen_stress(rng: &mut Rng, thorough: bool, emit: &mut dyn FnMut(String)) {
+    let fam = family();
+    let enc = |cs: &[MiniCfg]| cs.iter().map(enc_cfg).collect::<Vec<_>>().join("|");
+    if thorough {
+        for (nl, nr, it) in [(2, 1, 3000), (4, 1, 3000), (8, 1, 2000), (4, 2, 3000), (8, 3, 3000), (12, 4, 2000)] {
+            emit(format!("stress\t{}\t{}\t{}\t{}\t0.3,7.3,7.5", enc(&fam[..2]), nl, nr, it));
+            emit(format!("stress\t{}\t{}\t{}\t{}\t0.3,7.2", enc(&fam), nl, nr, it));
+            let cfgs: Vec<MiniCfg> = (0..3).map(|k| random_cfg(rng, k)).collect();
+            emit(format!("stress\t{}\t{}\t{}\t{}\t0.1,1.3,2.5,7.2", enc(&cfgs), nl, nr, it));
+        }
+    } else {
+        emit(format!("stress\t{}\t2\t1\t300\t0.3,7.3,7.5", enc(&fam[..2])));
+        emit(format!("stress\t{}\t4\t2\t300\t0.3,7.2", enc(&fam)));
+        let cfgs: Vec<MiniCfg> = (0..2).map(|k| random_cfg(rng, k)).collect();
+        emit(format!("stress\t{}\t3\t1\t300\t0.1,1.3,7.2", enc(&cfgs)));
+    }
+}
+
+fn enc_doc(d: &Doc) -> String {
+    format!("{}:{}:{}:{}", d.kind, d.tag, enc_opt(d.rate, |r| r.to_string()), d.nonce)
+}
+
+fn gen_reload_deterministic(emit: &mut dyn FnMut(String)) {
+    // docs: 0 = A(30s) 1 = B(60s) 2 = syntax error 3 = C without refresh_rate 4 = A again, other text
+    // 5 = lossy D 6 = schema error 7 = bad refresh_rate 8 = A with another rate
+    let docs = "g:1:30:0;g:2:60:0;y:9:-:0;g:3:-:0;g:1:30:1;l:4:5:0;c:5:5:0;r:6:5:0;g:1:5:0";
+    let hist = [
+        "w:1:11",                                 // valid change (+ rate change)
+        "w:0:10,w:0:10",                          // no change
+        "w:0:11,w:0:12",                          // touch without change
+        "w:1:10,w:1:11",                          // same-mtime edit is missed; seen once the mtime moves
+        "w:2:11,w:2:11,w:2:12,w:1:13",            // syntax error keeps A and keeps polling; then a good file
+        "w:2:11,w:0:12",                          // syntax error, then the previous good text restored (re-applied)
+        "x,x,w:1:11",                             // deletion keeps A and keeps polling; then a new file
+        "x,w:0:10",                               // deleted and restored unchanged
+        "d:11,d:11,w:1:12",                       // unreadable (directory)
+        "u:11,w:1:12",                            // unreadable (not UTF-8)
+        "d:11,w:1:11",                            // a failed read consumes the mtime: the edit is never applied
+        "u:11,w:1:11,w:1:11,w:1:12",              // … until the mtime changes again
+        "w:8:11,w:0:12",                          // refresh-rate change only
+        "w:3:11,w:1:12,w:0:13",                   // refresh_rate removed: applied, loop ends, later edits ignored
+        "w:4:11",                                 // same configuration, different text: applied again
+        "w:5:11,w:6:12,w:7:13,w:0:14",            // lossy config is applied; schema error / bad rate keep it
+        "w:1:9",                                  // mtime going backwards is a change
+    ];
+    for h in hist {
+        emit(format!("reload\t{}\t0:10:0\t{}", docs, h));
+        emit(format!("reload\t{}\t0:10:1\t{}", docs, h)); // mtime unavailable
+    }
+    emit(format!("reload\t{}\t3:10:0\tw:1:11", docs)); // no refresh_rate at start: the reloader never runs
+    emit(format!("reload\t{}\t2:10:0\tw:1:11", docs)); // init on a broken file fails
+}
+
+fn gen_reload_random(rng: &mut Rng, thorough: bool, emit: &mut dyn FnMut(String)) {
+    let nd = rng.range(3, 6) as usize;
+    let mut docs: Vec<Doc> = (0..nd)
+        .map(|_| {
+            let kind = match rng.below(100) {
+                0..=59 => 'g',
+                60..=67 => 'l',
+                68..=79 => 'y',
+                80..=89 => 'c',
+                _ => 'r',
+            };
+            Doc {
+                kind,
+                tag: rng.range(1, 4),
+                rate: if rng.chance(3, 20) { None } else { Some(*rng.pick(&[5u64, 30, 60])) },
+                nonce: rng.below(3),
+            }
+        })
+        .collect();
+    if rng.chance(9, 10) {
+        docs[0].kind = 'g';
+        if rng.chance(9, 10) && docs[0].rate.is_none() {
+            docs[0].rate = Some(30);
+        }
+    }
+    let forget = rng.chance(1, 8);
+    let mut m = 10u64;
+    let mut cur = 0usize;
+    let n = rng.range(1, if thorough { 20 } else { 12 });
+    let mut steps = vec![];
+    for _ in 0..n {
+        match rng.below(20) {
+            0..=1 => steps.push(format!("w:{}:{}", cur, m)),
+            2..=3 => {
+                m += 1;
+                steps.push(format!("w:{}:{}", cur, m));
+            }
+            4..=10 => {
+                cur = rng.below(nd as u64) as usize;
+                m += rng.range(1, 2);
+                steps.push(format!("w:{}:{}", cur, m));
+            }
+            11..=12 => {
+                cur = rng.below(nd as u64) as usize;
+                steps.push(format!("w:{}:{}", cur, m));
+            }
+            13..=14 => steps.push("x".to_owned()),
+            15..=16 => {
+                if rng.chance(1, 2) {
+                    m += 1;
+                }
+                steps.push(format!("d:{}", m));
+            }
+            17 => {
+                if rng.chance(1, 2) {
+                    m += 1;
+                }
+                steps.push(format!("u:{}", m));
+            }
+            _ => {
+                if m > 1 {
+                    m -= 1;
+                }
+                cur = rng.below(nd as u64) as usize;
+                steps.push(format!("w:{}:{}", cur, m));
+            }
+        }
+    }
+    emit(format!(
+        "reload\t{}\t0:10:{}\t{}",
+        docs.iter().map(enc_doc).collect::<Vec<_>>().join(";"),
+        enc_bool(forget),
+        steps.join(",")
+    ));
+}
+
+pub fn gen(rng: &mut Rng, n: usize, thorough: bool, emit: &mut dyn FnMut(String)) {
+    gen_swap_deterministic(emit);
+    gen_reload_deterministic(emit);
+    gen_stress(rng, thorough, emit);
+    for i in 0..n {
+        if i % 5 < 3 {
+            gen_swap_random(rng, thorough, emit);
+        } else {
+            gen_reload_random(rng, thorough, emit);
+        }
+    }
 }
 
 /// child-process entry point (`verif-harness child c15 …`), for checks that need process-global state
